@@ -54,10 +54,37 @@ def face_dirs(entry):
     return out
 
 
+OFF_VARIANTS = ("topology_offcentres", "ugrid_offcentres")
+
+
+def off_face_dirs(entry):
+    """Supplied face centres that are NOT the nodal centroid: the first corner counted twice
+    (a lattice direction strictly inside the convex face)."""
+    out = []
+    for f in entry["faces"]:
+        n0 = entry["nodes"][f[0]]
+        out.append(reduce3([n0[c] + sum(entry["nodes"][i][c] for i in f) for c in range(3)]))
+    return out
+
+
+def edge_pairs(entry):
+    return sorted({(min(a, b), max(a, b)) for f in entry["faces"] for a, b in zip(f, f[1:] + f[:1])})
+
+
+def off_edge_dir(entry, a, b):
+    """Supplied edge centre off the midpoint: twice the lower-numbered end plus the other end."""
+    lo, hi = entry["nodes"][min(a, b)], entry["nodes"][max(a, b)]
+    return reduce3([2 * lo[c] + hi[c] for c in range(3)])
+
+
 def build_grid(entry, variant="topology"):
     """variant 'topology': Grid.from_topology(node_lon, node_lat, faces)
     variant 'ugrid_centres': in-memory UGRID dataset that also supplies face_lon / face_lat
-    (the lattice centre directions), opened with ux.open_grid."""
+    (the lattice centre directions), opened with ux.open_grid.
+    variant 'topology_offcentres': from_topology with face_lon/face_lat, edge_node_connectivity,
+    edge_lon/edge_lat supplied as keyword arguments, the centres being lattice directions that
+    are NOT the nodal centroids / midpoints (off_face_dirs, off_edge_dir).
+    variant 'ugrid_offcentres': the same content as an in-memory UGRID dataset."""
     import xarray as xr
 
     ux = hux.import_ux()
@@ -66,6 +93,42 @@ def build_grid(entry, variant="topology"):
     conn = hux.pad_table(entry["faces"])
     if variant == "topology":
         return ux.Grid.from_topology(lon, lat, conn, fill_value=FILL)
+    if variant in OFF_VARIANTS:
+        fl = [lattice.lonlat_deg(d) for d in off_face_dirs(entry)]
+        ep = edge_pairs(entry)
+        el = [lattice.lonlat_deg(off_edge_dir(entry, a, b)) for a, b in ep]
+        f_lon, f_lat = np.array([a for a, _ in fl]), np.array([b for _, b in fl])
+        e_lon, e_lat = np.array([a for a, _ in el]), np.array([b for _, b in el])
+        en = np.array(ep, dtype=INT_DTYPE)
+        if variant == "topology_offcentres":
+            return ux.Grid.from_topology(lon, lat, conn, fill_value=FILL, face_lon=f_lon, face_lat=f_lat, edge_lon=e_lon, edge_lat=e_lat, edge_node_connectivity=en)
+        ds = xr.Dataset(
+            {
+                "mesh": xr.DataArray(
+                    -1,
+                    attrs={
+                        "cf_role": "mesh_topology",
+                        "topology_dimension": 2,
+                        "node_coordinates": "node_lon node_lat",
+                        "face_node_connectivity": "face_node_connectivity",
+                        "edge_node_connectivity": "edge_node_connectivity",
+                        "face_coordinates": "face_lon face_lat",
+                        "edge_coordinates": "edge_lon edge_lat",
+                        "face_dimension": "n_face",
+                        "edge_dimension": "n_edge",
+                    },
+                ),
+                "node_lon": xr.DataArray(lon, dims=["n_node"], attrs={"units": "degrees_east"}),
+                "node_lat": xr.DataArray(lat, dims=["n_node"], attrs={"units": "degrees_north"}),
+                "face_lon": xr.DataArray(f_lon, dims=["n_face"], attrs={"units": "degrees_east"}),
+                "face_lat": xr.DataArray(f_lat, dims=["n_face"], attrs={"units": "degrees_north"}),
+                "edge_lon": xr.DataArray(e_lon, dims=["n_edge"], attrs={"units": "degrees_east"}),
+                "edge_lat": xr.DataArray(e_lat, dims=["n_edge"], attrs={"units": "degrees_north"}),
+                "face_node_connectivity": xr.DataArray(conn, dims=["n_face", "n_max_face_nodes"], attrs={"cf_role": "face_node_connectivity", "start_index": 0, "_FillValue": FILL}),
+                "edge_node_connectivity": xr.DataArray(en, dims=["n_edge", "two"], attrs={"cf_role": "edge_node_connectivity", "start_index": 0, "_FillValue": FILL}),
+            }
+        )
+        return ux.open_grid(ds)
     if variant == "ugrid_centres":
         fd = face_dirs(entry)
         if any(d is None for d in fd):
@@ -110,7 +173,7 @@ def warm():
         return
     from . import catalog
 
-    for variant in ("topology", "ugrid_centres"):
+    for variant in ("topology", "ugrid_centres", "topology_offcentres"):
         g = build_grid(catalog.entries(name="cuboctahedron", rot=0, cut=0)[0], variant)
         for p in ("node", "face", "edge"):
             for c in ("lon", "lat", "x", "y", "z"):
@@ -135,11 +198,16 @@ def reported(g, kind, system):
     return np.stack([x, y, z], axis=-1), None, None
 
 
-def candidate_dirs(entry, g, kind):
+def candidate_dirs(entry, g, kind, variant="topology"):
     """Integer directions the elements of `kind` should have, in the grid's index order
-    (None where the direction is not a lattice point)."""
+    (None where the direction is not a lattice point).  For the off-centre variants these are
+    the SUPPLIED centres."""
     if kind == "nodes":
         return [list(v) for v in entry["nodes"]]
+    if variant in OFF_VARIANTS:
+        if kind == "face centers":
+            return off_face_dirs(entry)
+        return [off_edge_dir(entry, a, b) for a, b in np.asarray(g.edge_node_connectivity.values).tolist()]
     if not equal_norm(entry):
         return None  # centres of unequal-length corners are not lattice directions
     if kind == "face centers":
@@ -153,10 +221,10 @@ def candidate_dirs(entry, g, kind):
     return out
 
 
-def project(entry, g, kind, system):
+def project(entry, g, kind, system, variant="topology"):
     """Lattice directions of the elements of `kind` as reported in `system`, or None when
     they do not lie on the lattice (then the exact oracle does not apply)."""
-    cand = candidate_dirs(entry, g, kind)
+    cand = candidate_dirs(entry, g, kind, variant)
     if cand is None or any(c is None for c in cand):
         return None
     xyz, _, _ = reported(g, kind, system)
